@@ -118,9 +118,10 @@ structure Replay where
   /-- segment at which the replay stopped (mismatch / out of scope) -/
   failAt : Nat := 0
 
-def replay (cfg : Cfg) (c : Case) : Replay := Id.run do
+/-- replay against any engine-shaped semantics (`start`/`answer` pair) -/
+def replayWith (startF : Proc → Vars → St) (answerF : Proc → St → String → Nat → Answer → St) (c : Case) : Replay := Id.run do
   let p := c.proc
-  let mut s := start cfg p c.vars
+  let mut s := startF p c.vars
   let mut i := 0
   let mut reqs := 0
   let mut log : List (List String) := []
@@ -147,7 +148,7 @@ def replay (cfg : Cfg) (c : Case) : Replay := Id.run do
     | none => pure ()
     | some ws =>
       match parseAnswer ws with
-      | some (n, occ, a) => s := answer cfg p s n occ a
+      | some (n, occ, a) => s := answerF p s n occ a
       | none => return { oos := some ("unsupported op " ++ " ".intercalate ws), causes := s.causes,
                          causesAt := log, failAt := i }
     i := i + 1
@@ -155,5 +156,7 @@ def replay (cfg : Cfg) (c : Case) : Replay := Id.run do
   if let some why := s.outOfScope then
     return { oos := some why, causes := s.causes, causesAt := log, failAt := i }
   return { causes := s.causes, finalVars := s.vars, live := s.topLive p, reqs, causesAt := log, failAt := i }
+
+def replay (cfg : Cfg) (c : Case) : Replay := replayWith (start cfg) (answer cfg) c
 
 end Bpmn.Driver.Eng
